@@ -13,3 +13,5 @@ pub mod try_chunks;
 pub mod utils;
 pub mod version;
 pub mod yield_now;
+#[cfg(undermoon_verif)]
+pub mod verif_hook;
